@@ -160,3 +160,18 @@ MUTATORS = {
     "sort_by", "reverse", "take", "replace", "swap", "set", "push_str", "resize", "insert_str", "get_or_insert_with",
     "remove_entry", "split_off", "pop_first", "pop_last", "first_entry", "last_entry", "retain_mut",
 }
+
+
+PARTIAL_ADAPTERS = {"take", "skip", "filter", "step_by", "take_while", "skip_while", "rev", "nth", "skip_last", "filter_map"}
+
+
+def whole_iteration(body, t):
+    """term t is an element of a genuine loop over a complete iterator: it derives from a `next()` call
+    whose block lies on a cycle, and the iterator chain has no truncating / filtering adapter"""
+    cfg = cfg_of(body)
+    for x in walk(t):
+        if x[0] == "call" and callee_name(x) == "next" and cfg.is_loop_header(x[3]):
+            names = {callee_name(c) for c in walk(x) if c[0] == "call"}
+            if not (names & PARTIAL_ADAPTERS):
+                return True
+    return False
